@@ -136,6 +136,16 @@ def cases(tier, seed):
                 "pattern": rnd.choice(["random", "random", "saturated_pos", "saturated_mixed", "saturated_neg", "bias_dominant"])
                 if not focus else rnd.choice(["saturated_pos", "saturated_mixed", "saturated_neg"]),
                 "idx": i, "seed": seed})
+    # every 8th random case: one output channel with mixed signs and the largest weight mass, the others one-sided
+    # with a slightly smaller mass - with a one-sided input range the one-sided channels reach the larger sums
+    # (pattern substituted after the draws: the other cases stay what they were)
+    if not focus and i % 8 == 5:
+      out[-1]["pattern"] = "one_sided"
+    # every 8th random case: unsigned bias quantizers with a fine LSB (signed sum of products + unsigned bias)
+    if not focus and i % 8 == 3:
+      for l in layers:
+        if l["kw"].get("use_bias") and l["kw"].get("bias_quantizer") is not None:
+          l["kw"]["bias_quantizer"] = Qd("quantized_bits", bits=8, integer=0, keep_negative=False)
   return out
 
 
@@ -227,6 +237,13 @@ def run_case(case, ctx):
       kv = rng.normal(0, 0.05, size=k.shape)
       if rng.random() < 0.5 and k.shape[-1] > 1 and type(l).__name__ != "QDepthwiseConv2D":
         kv[..., 0] = 0.0          # a pruned filter: its output is the bias alone
+    elif pattern == "one_sided":
+      kv = np.full(k.shape, 0.5)
+      flat = kv.reshape(-1, k.shape[-1])
+      alt = np.where(np.arange(flat.shape[0]) % 2 == 0, 0.5, -0.5)
+      alt[0] = 0.75
+      flat[:, 0] = alt
+      kv = flat.reshape(k.shape)
     elif pattern == "saturated_pos":
       kv = np.full(k.shape, 64.0)
     elif pattern == "saturated_neg":
@@ -237,6 +254,8 @@ def run_case(case, ctx):
     if len(ws) > 1:
       new.append((rng.normal(0, 1.0, size=ws[1].shape) if pattern == "random" else rng.choice([-64.0, 64.0], size=ws[1].shape)).astype(np.float32)
                  if pattern != "bias_dominant" else rng.choice([-0.5, 0.5, 1.0], size=ws[1].shape).astype(np.float32))
+    if pattern == "one_sided" and len(new) > 1:
+      new[1] = np.zeros(ws[1].shape, np.float32)       # no bias term: the estimate is the weight sums alone
     if pattern == "bias_dominant" and len(new) > 1 and kv.ndim >= 2 and not np.any(kv[..., 0]) and new[1].shape[0] == kv.shape[-1]:
       # the pruned filter carries the largest bias of the layer (saturating the bias quantizer), the others a small one
       b = np.full(new[1].shape, 0.0625, np.float32) * rng.choice([-1.0, 1.0], size=new[1].shape).astype(np.float32)
@@ -384,7 +403,7 @@ def run_case(case, ctx):
         # F-C18-2 multiplies the bias by the input-range terms: it can only shrink / drop the bias when one side of
         # the range has magnitude below 1 (or is absent); with |x_min| >= 1 and x_max >= 1 the bias is over-counted
         shrinkable = (hi_ < 1.0) or (lo_ > -1.0)
-        mech = "bias_term_mishandled" if (l.use_bias and shrinkable and
+        mech = "bias_term_mishandled" if (l.use_bias and np.any(b != 0) and shrinkable and
                                           2.0 ** np.ceil(np.log2(max(correct, 1e-300))) >= m * (1 - 1e-6)) else "other"
         ctx.violation({"kind": "estimator_below_observed_output", "layer": type(l).__name__,
                        "bias": bool(l.use_bias), "mechanism": mech},
